@@ -105,37 +105,56 @@ fn date_rt(acc: &mut Acc, d: NaiveDate, y: i64, buf: &mut String) {
     }
 }
 
+thread_local! {
+    static BUFS: std::cell::RefCell<(String, String)> = std::cell::RefCell::new((String::with_capacity(128), String::with_capacity(128)));
+}
+
+/// Display and Debug text of a value in per-thread buffers (no allocation in the sweeps).
+fn with_texts<T: std::fmt::Display + std::fmt::Debug, R>(v: &T, f: impl FnOnce(&str, &str) -> R) -> R {
+    BUFS.with(|b| {
+        let mut b = b.borrow_mut();
+        let (d, g) = &mut *b;
+        d.clear();
+        g.clear();
+        let _ = write!(d, "{}", v);
+        let _ = write!(g, "{:?}", v);
+        f(d, g)
+    })
+}
+
 fn time_rt(acc: &mut Acc, s: u32, f: u32) {
     let t = mk_time(s, f);
-    for (form, txt) in [("Display", t.to_string()), ("Debug", format!("{:?}", t))] {
-        check_time_form(acc, "NaiveTime", &txt, s, f);
-        acc.transitions += 1;
-        match txt.parse::<NaiveTime>() {
-            Ok(p) if p == t => acc.hit(RT),
-            other => acc.violation(&format!("NaiveTime:{}->FromStr", form), format!("{:?}.parse::<NaiveTime>()", txt), format!("Ok({:?})", t), format!("{:?}", other)),
+    with_texts(&t, |disp, dbg| {
+        for (form, txt) in [("Display", disp), ("Debug", dbg)] {
+            check_time_form(acc, "NaiveTime", txt, s, f);
+            acc.transitions += 1;
+            match txt.parse::<NaiveTime>() {
+                Ok(p) if p == t => acc.hit(RT),
+                other => acc.violation(&format!("NaiveTime:{}->FromStr", form), format!("{:?}.parse::<NaiveTime>()", txt), format!("Ok({:?})", t), format!("{:?}", other)),
+            }
         }
-    }
+    })
 }
 
 fn ndt_rt(acc: &mut Acc, z: i64, s: u32, f: u32) {
     let t = mk_ndt(z, s, f);
     let (y, _, _) = civil_from_days(z);
-    let dbg = format!("{:?}", t);
-    check_date_form(acc, "NaiveDateTime", &dbg, y);
-    check_time_form(acc, "NaiveDateTime", &dbg, s, f);
-    acc.transitions += 2;
-    match dbg.parse::<NaiveDateTime>() {
-        Ok(p) if p == t => acc.hit(RT),
-        other => acc.violation("NaiveDateTime:Debug->FromStr", format!("{:?}.parse::<NaiveDateTime>()", dbg), format!("Ok({:?})", t), format!("{:?}", other)),
-    }
-    let disp = t.to_string();
-    match disp.parse::<NaiveDateTime>() {
-        Ok(p) if p == t => acc.hit(RT),
-        other => {
-            acc.hit(KNOWN);
-            acc.violation("NaiveDateTime:Display->FromStr", format!("{:?}.parse::<NaiveDateTime>()", disp), format!("Ok({:?})", t), format!("{:?}", other))
+    with_texts(&t, |disp, dbg| {
+        check_date_form(acc, "NaiveDateTime", dbg, y);
+        check_time_form(acc, "NaiveDateTime", dbg, s, f);
+        acc.transitions += 2;
+        match dbg.parse::<NaiveDateTime>() {
+            Ok(p) if p == t => acc.hit(RT),
+            other => acc.violation("NaiveDateTime:Debug->FromStr", format!("{:?}.parse::<NaiveDateTime>()", dbg), format!("Ok({:?})", t), format!("{:?}", other)),
         }
-    }
+        match disp.parse::<NaiveDateTime>() {
+            Ok(p) if p == t => acc.hit(RT),
+            other => {
+                acc.hit(KNOWN);
+                acc.violation_lazy("NaiveDateTime:Display->FromStr", || (format!("{:?}.parse::<NaiveDateTime>()", disp), format!("Ok({:?})", t), format!("{:?}", other)))
+            }
+        }
+    })
 }
 
 fn dt_rt(acc: &mut Acc, z: i64, s: u32, f: u32, off: i32) {
@@ -147,29 +166,33 @@ fn dt_rt(acc: &mut Acc, z: i64, s: u32, f: u32, off: i32) {
         return;
     };
     let (y, _, _) = civil_from_days(z);
-    for (form, txt) in [("Display", dt.to_string()), ("Debug", format!("{:?}", dt))] {
-        check_date_form(acc, "DateTime<FixedOffset>", &txt, y);
-        check_time_form(acc, "DateTime<FixedOffset>", &txt, s, f);
-        acc.transitions += 1;
-        match txt.parse::<DateTime<FixedOffset>>() {
-            Ok(p) if p == dt && p.offset().local_minus_utc() == off && p.naive_utc() == dt.naive_utc() => acc.hit(RT),
-            other => acc.violation(&format!("DateTime<FixedOffset>:{}->FromStr", form), format!("{:?}.parse::<DateTime<FixedOffset>>()", txt), format!("Ok({:?})", dt), format!("{:?}", other)),
+    with_texts(&dt, |disp, dbg| {
+        for (form, txt) in [("Display", disp), ("Debug", dbg)] {
+            check_date_form(acc, "DateTime<FixedOffset>", txt, y);
+            check_time_form(acc, "DateTime<FixedOffset>", txt, s, f);
+            acc.transitions += 1;
+            match txt.parse::<DateTime<FixedOffset>>() {
+                Ok(p) if p == dt && p.offset().local_minus_utc() == off && p.naive_utc() == dt.naive_utc() => acc.hit(RT),
+                other => acc.violation(&format!("DateTime<FixedOffset>:{}->FromStr", form), format!("{:?}.parse::<DateTime<FixedOffset>>()", txt), format!("Ok({:?})", dt), format!("{:?}", other)),
+            }
         }
-    }
+    });
     if off < 0 {
         acc.hit(NEGOFF);
     }
     if off == 0 {
         let u: DateTime<Utc> = Utc.from_utc_datetime(&wall);
-        for (form, txt) in [("Display", u.to_string()), ("Debug", format!("{:?}", u))] {
-            check_date_form(acc, "DateTime<Utc>", &txt, y);
-            check_time_form(acc, "DateTime<Utc>", &txt, s, f);
-            acc.transitions += 1;
-            match txt.parse::<DateTime<Utc>>() {
-                Ok(p) if p == u && p.naive_utc() == wall => acc.hit(RT),
-                other => acc.violation(&format!("DateTime<Utc>:{}->FromStr", form), format!("{:?}.parse::<DateTime<Utc>>()", txt), format!("Ok({:?})", u), format!("{:?}", other)),
+        with_texts(&u, |disp, dbg| {
+            for (form, txt) in [("Display", disp), ("Debug", dbg)] {
+                check_date_form(acc, "DateTime<Utc>", txt, y);
+                check_time_form(acc, "DateTime<Utc>", txt, s, f);
+                acc.transitions += 1;
+                match txt.parse::<DateTime<Utc>>() {
+                    Ok(p) if p == u && p.naive_utc() == wall => acc.hit(RT),
+                    other => acc.violation(&format!("DateTime<Utc>:{}->FromStr", form), format!("{:?}.parse::<DateTime<Utc>>()", txt), format!("Ok({:?})", u), format!("{:?}", other)),
+                }
             }
-        }
+        });
     }
 }
 
